@@ -16,8 +16,8 @@ e) what DEFINE persists, the next start can read back: the schema store's writer
 f) a conforming payload reaches validation: the rule that cuts the JSON payload out of a STORE command skips JSON string literals (the generated __parse_balanced_braces reaches __parse_json_string),
    so braces inside string values do not unbalance it.
 """
-FLOOR = 10
-REQUIRED = ["C06.a", "C06.b", "C06.c", "C06.d1", "C06.d2", "C06.d3", "C06.e", "C06.f", "C06.g", "C06.h"]
+FLOOR = 11
+REQUIRED = ["C06.a", "C06.b", "C06.c", "C06.d1", "C06.d2", "C06.d3", "C06.e", "C06.f", "C06.g", "C06.h", "C06.i"]
 
 
 def run(ctx):
@@ -382,3 +382,34 @@ def run(ctx):
                 bad.append(("guard-counts-string-braces:%s" % c_.nname.split("::")[-1], "%s counts every '{' byte and never looks for '\"': 64 braces inside a string value are refused as nesting although the JSON depth is 1" % c_.nname.split("::")[-1], sp(pp, c_.bb)))
         return bad
     ctx.run("C06.h", "K6 TABLE", "STORE pre-parse guards (parse_peg)", "a brace-counting guard skips string literals", h_)
+
+    def i_(inst):
+        # core fields and payload fields share one namespace on every read and write path (the core value wins):
+        # DEFINE must not accept a payload field named like a core field
+        CORE = {"timestamp", "event_id", "context_id", "event_type"}
+        bodies = [F.fn("handlers::define::handle"), F.fn("SchemaRegistry::define"), F.fn("SchemaRegistry::define_async")]
+        base = set()
+        for b in list(bodies):
+            for k in F.keys():
+                if k.startswith(b.key.split("::{closure")[0] + "::{closure") and k != b.key:
+                    bodies.append(F.fn_exact(k))
+            for c_ in b.calls:
+                if not c_.cleanup and c_.callee and F.has(c_.callee) and re.search(r"validate|reserved|check", c_.nname):
+                    bodies.append(F.fn_exact(c_.callee))
+        seen_consts = set()
+        for b in bodies:
+            for c_ in b.calls:
+                if c_.cleanup:
+                    continue
+                for a_ in c_.args:
+                    if isinstance(a_, dict) and a_.get("k"):
+                        seen_consts.add(str(a_["k"]).strip('"'))
+                    for l in b.origins(a_):
+                        if l[0] == "const":
+                            seen_consts.add(str(l[1]).strip('"'))
+        named = CORE & seen_consts
+        inst.sites = ["%d DEFINE-path bodies; core names they mention: %s" % (len(bodies), sorted(named))]
+        if len(named) < len(CORE):
+            return [("core-field-names-accepted", "neither the DEFINE handler nor SchemaRegistry::define(_async) compares a field name with the core names %s: such a payload field is accepted, STORE takes its value and every read returns the core value instead (the payload value is lost)" % sorted(CORE - named), None)]
+        return []
+    ctx.run("C06.i", "K10 READS", "handlers::define::handle / SchemaRegistry::define", "a schema cannot declare a payload field that a core field shadows", i_)
